@@ -37,6 +37,7 @@ type Opts struct {
 	Hints         bool // suggest a simple concrete regime (round share amounts, unit prices, small rewards) to the search for a concrete counterexample
 	TinyTDS       bool // allow a validator's total delegator shares to be below one share (region of a known C05/C20 finding: shares are then priced 1:1)
 	StrictRewards bool // pending distribution rewards are strictly positive and every position has a strictly positive index gap (fewer zero/non-zero forks)
+	Val0Unbonding bool // validator 0 has left the active set (status Unbonding): x/staking still slashes it
 	BigPool       bool // the rewards pool holds more than any entitlement (keeps pool-shortage forks out of harnesses that are not about solvency)
 	History2      bool // reward histories exist for two reward denoms, in first-seen (non-alphabetical) order: stake, then aaaaa
 	TwoRewards    bool // pending distribution rewards come in two denoms and the validators have no reward history yet
@@ -109,7 +110,7 @@ func Build(ps []Pos, o Opts) *State {
 		if o.Rewards {
 			// the module already holds alliance-minted stake on the validator (exchange rate 1)
 			m := nd.IntRange("modstake_"+n, "1", Pow30)
-			NewValidator(e, Vals[v], stakingtypes.Bonded, tok.Add(m), math.LegacyNewDecFromInt(tok.Add(m)))
+			NewValidator(e, Vals[v], valStatus(o, v), tok.Add(m), math.LegacyNewDecFromInt(tok.Add(m)))
 			mod := e.Ak.GetModuleAddress(types.ModuleName)
 			e.Stk.SetDelegationRaw(mod, Vals[v], stakingtypes.NewDelegation(mod.String(), Vals[v].String(), math.LegacyNewDecFromInt(m)))
 			plo := "0"
@@ -131,7 +132,7 @@ func Build(ps []Pos, o Opts) *State {
 				e.Distr.Allocate(mod, Vals[v], coins)
 			}
 		} else {
-			NewValidator(e, Vals[v], stakingtypes.Bonded, tok, math.LegacyNewDecFromInt(tok))
+			NewValidator(e, Vals[v], valStatus(o, v), tok, math.LegacyNewDecFromInt(tok))
 		}
 	}
 	if o.Rewards {
@@ -345,4 +346,11 @@ func Surplus(e *env.Env, denom string) math.Int {
 		staked = asset.TotalTokens
 	}
 	return bal.Sub(staked).Sub(QueuedTotal(e, denom))
+}
+
+func valStatus(o Opts, v int) stakingtypes.BondStatus {
+	if o.Val0Unbonding && v == 0 {
+		return stakingtypes.Unbonding
+	}
+	return stakingtypes.Bonded
 }
